@@ -155,3 +155,34 @@ MUTANTS = {
   ("io-read-format-order-rdf-first", "prov/serializers/__init__.py", '            "json": ProvJSONSerializer,\n            "rdf": ProvRDFSerializer,', '            "rdf": ProvRDFSerializer,\n            "json": ProvJSONSerializer,'),
  ],
 }
+
+_ATOMIC = """            fd, name = tempfile.mkstemp(
+                dir=os.path.dirname(os.path.abspath(path)), prefix=".prov-tmp-"
+            )
+            try:
+                with os.fdopen(fd, "wb") as stream:
+                    serializer.serialize(stream, **args)
+                os.replace(name, path)
+            except BaseException:
+                try:
+                    os.remove(name)
+                except OSError:
+                    pass
+                raise
+"""
+MUTANTS["C17"] = [
+  ("file-revert-name-fix", M, '            if scheme != "file":\n', '            if False:\n'),
+  ("file-revert-atomic-fix", M, _ATOMIC, """            fd, name = tempfile.mkstemp()
+            stream = os.fdopen(fd, "wb")
+            serializer.serialize(stream, **args)
+            stream.close()
+            shutil.move(name, path)
+"""),
+  ("file-direct-write", M, _ATOMIC, """            with open(path, "wb") as stream:
+                serializer.serialize(stream, **args)
+"""),
+  ("file-swallow-exception", M, "                except OSError:\n                    pass\n                raise\n", "                except OSError:\n                    pass\n"),
+  ("file-replace-before-close", M, '                with os.fdopen(fd, "wb") as stream:\n                    serializer.serialize(stream, **args)\n                os.replace(name, path)', '                with os.fdopen(fd, "wb") as stream:\n                    serializer.serialize(stream, **args)\n                    os.replace(name, path)'),
+  ("file-copy-instead-of-replace", M, '                os.replace(name, path)\n            except BaseException:', '                shutil.copyfile(name, path)\n                os.remove(name)\n            except BaseException:'),
+  ("file-percent-decoded", M, "                path = location\n", "                path = location.replace('%41', 'A')\n"),
+]
